@@ -17,14 +17,16 @@ import (
 	"encoding/json"
 	"fmt"
 	"io"
+	"net"
+	"net/http"
 	"net/url"
 	"os"
 	"path"
 	"path/filepath"
 	"sort"
 	"strings"
+	"sync"
 
-	"golang.org/x/crypto/openpgp"           //nolint
 	"golang.org/x/crypto/openpgp/clearsign" //nolint
 
 	"helm.sh/helm/v4/pkg/action"
@@ -66,7 +68,18 @@ func init() {
 	})
 }
 
-var entries = []string{"Signatory.Verify", "VerifyChart", "DownloadTo", "LocateChart", "action.Verify"}
+// entries: the first five take a file or a getter directly; the Pull entries run
+// action.Pull (helm pull) with verification required, over the real HTTP getter
+// against a loopback server owned by the check, for the product of --prov and --untar.
+var entries = []string{"Signatory.Verify", "VerifyChart", "DownloadTo", "LocateChart", "action.Verify",
+	"Pull(--verify)", "Pull(--verify,--prov)", "Pull(--verify,--untar)", "Pull(--verify,--prov,--untar)"}
+
+// coreEntries are the entry points used for the positional families in the thorough tier.
+var coreEntries = entries[:5]
+
+// noVerifyPulls complete the flag product of helm pull; the property requires
+// nothing of them, they are executed and counted but not judged.
+var noVerifyPulls = []string{"Pull()", "Pull(--prov)", "Pull(--untar)", "Pull(--prov,--untar)"}
 
 // caseIn is one fully written-out case; it is also the replay record.
 type caseIn struct {
@@ -85,7 +98,14 @@ type caseIn struct {
 	OriginText []byte `json:"origin_text"` // canonical text legitimately signed that Prov derives from; empty = none
 	OriginFP   string `json:"origin_fp"`
 	Root       string `json:"root"` // working directory (signed absolute-path variants refer to it)
-	// Entries restricts the entry points to run (empty = all five).
+	// Link: "" | "archive" | "archive+prov". When set, archive and provenance are
+	// stored as <root>/w/link-target/<LinkTarget>[.prov] and the path handed to
+	// Helm (SubDir/ArchName) is a symbolic link to the archive; with
+	// "archive+prov" ArchName.prov is a link to the provenance file too, with
+	// "archive" there is no provenance file next to the link.
+	Link       string `json:"link,omitempty"`
+	LinkTarget string `json:"link_target,omitempty"`
+	// Entries restricts the entry points to run (empty = all).
 	Entries []string `json:"entries,omitempty"`
 	// Steps, when set, makes the case a sequence run in one process: before each
 	// step the keyring file of that step is (re)written, then every entry point
@@ -138,6 +158,10 @@ type obs struct {
 	Hash   string
 	Name   string
 	FP     string
+	// Unpacked: a failed pull left something in the untar directory
+	Unpacked string
+	// Unjudged: the property requires nothing of this run
+	Unjudged bool
 }
 
 // ---------- environment ----------
@@ -147,19 +171,83 @@ type env struct {
 	settings *cli.EnvSettings
 	written  map[string][]byte
 	present  map[string]bool
+	links    map[string]bool
+	// loopback chart server for the Pull entry points
+	srv      *http.Server
+	srvURL   string
+	srvMu    sync.Mutex
+	srvFiles map[string][]byte
 	// blanket[entry][reference reason]: the entry point gets even the simplest
 	// case with that reference verdict wrong (set by explorer.sentinels; nil in replays)
 	blanket map[string]map[string]bool
 }
 
 func newEnv(root string) *env {
-	for _, d := range []string{"rings", "w", "dl", "cache"} {
+	for _, d := range []string{"rings", "w", "dl", "cache", "pull"} {
 		os.MkdirAll(filepath.Join(root, d), 0o755)
 	}
-	return &env{root: root, settings: cli.New(), written: map[string][]byte{}, present: map[string]bool{}}
+	st := cli.New()
+	st.RepositoryConfig = filepath.Join(root, "no-repositories.yaml")
+	st.RepositoryCache = filepath.Join(root, "cache")
+	st.PluginsDirectory = filepath.Join(root, "no-plugins")
+	return &env{root: root, settings: st, written: map[string][]byte{}, present: map[string]bool{}, links: map[string]bool{}}
+}
+
+// serve starts (once) the loopback server and publishes the files of one case.
+func (e *env) serve(files map[string][]byte) (string, error) {
+	e.srvMu.Lock()
+	e.srvFiles = files
+	e.srvMu.Unlock()
+	if e.srv != nil {
+		return e.srvURL, nil
+	}
+	ln, err := net.Listen("tcp", "127.0.0.1:0")
+	if err != nil {
+		return "", err
+	}
+	e.srv = &http.Server{Handler: http.HandlerFunc(func(w http.ResponseWriter, r *http.Request) {
+		e.srvMu.Lock()
+		b, ok := e.srvFiles[path.Base(r.URL.Path)]
+		e.srvMu.Unlock()
+		if !ok {
+			http.NotFound(w, r)
+			return
+		}
+		w.Header().Set("Content-Type", "application/octet-stream")
+		w.Write(b)
+	})}
+	// every pull builds its own HTTP transport; without keep-alive the
+	// connections are closed by the server instead of piling up idle
+	e.srv.SetKeepAlivesEnabled(false)
+	go e.srv.Serve(ln)
+	e.srvURL = "http://" + ln.Addr().String()
+	return e.srvURL, nil
+}
+
+func (e *env) close() {
+	if e.srv != nil {
+		e.srv.Close()
+	}
+}
+
+// setLink makes p a symbolic link to target.
+func (e *env) setLink(p, target string) error {
+	if err := os.MkdirAll(filepath.Dir(p), 0o755); err != nil {
+		return err
+	}
+	os.Remove(p)
+	delete(e.present, p)
+	delete(e.written, p)
+	e.links[p] = true
+	return os.Symlink(target, p)
 }
 
 func (e *env) setFile(p string, b []byte, absent bool) error {
+	if e.links[p] {
+		// never write through a link left by an earlier case
+		os.Remove(p)
+		delete(e.links, p)
+	}
 	if absent {
 		if e.present[p] {
 			delete(e.present, p)
@@ -231,7 +319,7 @@ func (e *env) runEntry(entry string, ci *caseIn, archPath, ringPath string) (o o
 		}
 	case "DownloadTo":
 		files := map[string][]byte{ci.ArchName: ci.Archive}
-		if !ci.NoProv {
+		if !ci.NoProv && ci.Link != "archive" {
 			files[ci.ArchName+".prov"] = ci.Prov
 		}
 		dl := &downloader.ChartDownloader{Out: io.Discard, Verify: downloader.VerifyAlways, Keyring: ringPath,
@@ -265,10 +353,52 @@ func (e *env) runEntry(entry string, ci *caseIn, archPath, ringPath string) (o o
 			}
 		}
 	default:
-		panic("unknown entry " + entry)
+		if !strings.HasPrefix(entry, "Pull(") {
+			panic("unknown entry " + entry)
+		}
+		files := map[string][]byte{ci.ArchName: ci.Archive}
+		if !ci.NoProv && ci.Link != "archive" {
+			files[ci.ArchName+".prov"] = ci.Prov
+		}
+		var base string
+		base, err = e.serve(files)
+		if err != nil {
+			panic("c17 harness: cannot listen on loopback: " + err.Error())
+		}
+		dest := filepath.Join(e.root, "pull")
+		os.RemoveAll(dest)
+		os.MkdirAll(dest, 0o755)
+		p := action.NewPull(action.WithConfig(&action.Configuration{}))
+		p.Settings = e.settings
+		p.Keyring = ringPath
+		p.DestDir = dest
+		p.UntarDir = "unpacked"
+		p.Verify = strings.Contains(entry, "--verify")
+		p.VerifyLater = strings.Contains(entry, "--prov")
+		p.Untar = strings.Contains(entry, "--untar")
+		o.Unjudged = !p.Verify
+		var out string
+		out, err = p.Run(base + "/charts/" + ci.ArchName)
+		if err != nil && p.Untar {
+			if des, _ := os.ReadDir(filepath.Join(dest, "unpacked")); len(des) > 0 {
+				o.Unpacked = des[0].Name()
+			}
+		}
+		if err == nil && p.Verify {
+			o.HasVer = true
+			o.Name = ci.ArchName // not reported by this entry point
+			for _, l := range strings.Split(out, "\n") {
+				if s, ok := strings.CutPrefix(l, "Using Key With Fingerprint: "); ok {
+					o.FP = strings.TrimSpace(s)
+				}
+				if s, ok := strings.CutPrefix(l, "Chart Hash Verified: "); ok {
+					o.Hash = strings.TrimSpace(s)
+				}
+			}
+		}
 	}
 	if err != nil {
-		o.Err = err.Error()
+		o.Err = strings.ReplaceAll(err.Error(), e.srvURL+"/", "http://<loopback>/")
 		return o
 	}
 	o.OK = true
@@ -283,7 +413,7 @@ type finding struct {
 
 func ringFPs(ring []byte) map[string]bool {
 	out := map[string]bool{}
-	el, _ := openpgp.ReadKeyRing(bytes.NewReader(ring))
+	el, _ := parsedRing(ring)
 	for _, e := range el {
 		out[fpOf(e)] = true
 	}
@@ -293,6 +423,12 @@ func ringFPs(ring []byte) map[string]bool {
 func judge(ci *caseIn, v verdict, entry string, o obs) []finding {
 	var fs []finding
 	add := func(kind, what string) { fs = append(fs, finding{Kind: kind, Entry: entry, What: what}) }
+	if o.Unjudged {
+		return nil
+	}
+	if o.Unpacked != "" {
+		add("unpacked-after-failed-verification", fmt.Sprintf("fails (%s) but leaves %q in the untar directory", o.Err, o.Unpacked))
+	}
 	if o.Panic != "" {
 		if v.Accept {
 			add("panics-on-valid", "panics ("+o.Panic+") although signature, keyring and listed digest are all valid")
@@ -348,9 +484,32 @@ func (e *env) execCase(ci *caseIn) (verdict, []obs, []core.Violation) {
 	}
 	archPath := filepath.Join(dir, ci.ArchName)
 	ringPath := filepath.Join(e.root, "rings", ci.RingName+".gpg")
-	herr := e.setFile(archPath, ci.Archive, false)
-	if err := e.setFile(archPath+".prov", ci.Prov, ci.NoProv); err != nil {
-		herr = err
+	noProv := ci.NoProv
+	var herr error
+	if ci.Link == "" {
+		herr = e.setFile(archPath, ci.Archive, false)
+		if err := e.setFile(archPath+".prov", ci.Prov, ci.NoProv); err != nil {
+			herr = err
+		}
+	} else {
+		target := filepath.Join(e.root, "w", "link-target", ci.LinkTarget)
+		herr = e.setFile(target, ci.Archive, false)
+		if err := e.setFile(target+".prov", ci.Prov, ci.NoProv); err != nil {
+			herr = err
+		}
+		if err := e.setLink(archPath, target); err != nil {
+			herr = err
+		}
+		if ci.Link == "archive+prov" && !ci.NoProv {
+			if err := e.setLink(archPath+".prov", target+".prov"); err != nil {
+				herr = err
+			}
+		} else {
+			noProv = true // nothing next to the link
+			if err := e.setFile(archPath+".prov", nil, true); err != nil {
+				herr = err
+			}
+		}
 	}
 	if err := e.setFile(ringPath, ci.RingBytes, false); err != nil {
 		herr = err
@@ -358,7 +517,7 @@ func (e *env) execCase(ci *caseIn) (verdict, []obs, []core.Violation) {
 	if herr != nil {
 		panic("c17 harness: cannot write case files: " + herr.Error())
 	}
-	v := reference(ci.Archive, ci.ArchName, ci.Prov, ci.NoProv, ci.RingBytes)
+	v := reference(ci.Archive, ci.ArchName, ci.Prov, noProv, ci.RingBytes)
 	// per entry point the first finding (judge lists the verdict mismatch before
 	// the corollaries) names the class; the others are appended to its text.
 	// The class names family and location unless the entry point already gets
@@ -389,6 +548,8 @@ func (e *env) execCase(ci *caseIn) (verdict, []obs, []core.Violation) {
 		}
 		if (strings.HasPrefix(pf.Kind, "accepts-invalid:") || pf.Kind == "rejects-valid") && e.blanket[en][v.Reason] {
 			gk = "any-case/" + pf.Kind
+		} else if e.blanket[en]["kind:"+pf.Kind] {
+			gk = "any-case/" + pf.Kind
 		}
 		if _, ok := byKey[gk]; !ok {
 			gks = append(gks, gk)
@@ -408,7 +569,7 @@ func (e *env) execCase(ci *caseIn) (verdict, []obs, []core.Violation) {
 			ens = append(ens, f.Entry)
 		}
 		enKey := strings.Join(ens, "+")
-		if len(ens) == len(entries) {
+		if len(ens) == len(run) && len(run) == len(entries) {
 			enKey = "all-entry-points"
 		}
 		what := fmt.Sprintf("%s: %s [case: %s; pair %s; keyring %s; archive %q %d bytes; reference: %s]",
@@ -455,6 +616,7 @@ func replay(c *core.Ctx, data json.RawMessage) []core.Violation {
 	}
 	defer os.RemoveAll(root)
 	e := newEnv(root)
+	defer e.close()
 	if len(ci.Steps) > 0 {
 		_, vs := e.execSteps(&ci)
 		return vs
@@ -553,6 +715,7 @@ func run(c *core.Ctx) {
 		return
 	}
 	e := newEnv(root)
+	defer e.close()
 	x := &explorer{c: c, f: f, e: e}
 	c.Bound("charts", "2 (hx-a-0.1.0: Chart.yaml only; hx-b-1.2.3: Chart.yaml+values.yaml+1 template)")
 	c.Bound("keys", "2 (k0 RSA-2048 with RSA subkey via openpgp.NewEntity; k1 ECDSA P-256), fixed-seed generation")
@@ -564,11 +727,12 @@ func run(c *core.Ctx) {
 	if c.Thorough() {
 		bulkRings = []int{0, 1, 2, 3}
 		c.Bound("bulk_keyrings", "signer, other+signer, other-only, empty")
-		c.Bound("bulk_entry_points", "all five")
+		x.bulkEntries = coreEntries
+		c.Bound("bulk_entry_points", "Signatory.Verify, VerifyChart, DownloadTo, LocateChart, action.Verify for bit flips and truncations; all nine for every other family")
 	} else {
 		x.bulkEntries = entries[:3]
 		c.Bound("bulk_keyrings", "other+signer for bit flips and truncations; all four for every other family")
-		c.Bound("bulk_entry_points", "Signatory.Verify, VerifyChart, DownloadTo for bit flips and truncations; all five for every other family")
+		c.Bound("bulk_entry_points", "Signatory.Verify, VerifyChart, DownloadTo for bit flips and truncations; all nine for every other family")
 	}
 	c.Bound("prov_bitflips", "every bit of every byte")
 	c.Bound("prov_truncations", "every length 0..len-1")
@@ -606,7 +770,7 @@ type explorer struct {
 	f *fixture
 	e *env
 	n int
-	// bulkEntries: entry points for the positional families (nil = all five)
+	// bulkEntries: entry points for the positional families
 	bulkEntries []string
 }
 
@@ -829,6 +993,12 @@ func (x *explorer) sentinels() {
 		for _, o := range os_ {
 			if o.OK != v.Accept {
 				bl[o.Entry][v.Reason] = true
+			} else if v.Accept {
+				// accepted as it should be, but already the simplest valid case is
+				// reported wrongly (signer, hash): one key for that everywhere
+				if fs := judge(ci, v, o.Entry, o); len(fs) > 0 {
+					bl[o.Entry]["kind:"+fs[0].Kind] = true
+				}
 			}
 		}
 	}
@@ -878,6 +1048,117 @@ func (x *explorer) structured() {
 					x.emit(fmt.Sprintf("rename%s|%d", tag, ni), func() *caseIn {
 						ci := x.base(pi, ri, "rename", nm.why+" ("+path.Join(nm.sub, nm.name)+"), same bytes, same provenance")
 						ci.ArchName, ci.SubDir = nm.name, nm.sub
+						return ci
+					})
+				}
+				// renamed through a symbolic link: the archive keeps its signed name where
+				// it really is, and is offered under another name (or under its own name
+				// in another directory) through a link; the name that counts is the one
+				// the archive is presented under
+				links := []struct{ sub, name, why string }{
+					{"links", other.Base, "offered under the other chart's file name"},
+					{"links", "linked-" + p.Base, "offered under a new file name"},
+					{"links", p.Base, "offered under its own file name in another directory"},
+				}
+				for li, lk := range links {
+					for _, mode := range []string{"archive", "archive+prov"} {
+						if mode == "archive" && lk.name == p.Base {
+							// own name, provenance only next to the link target: whether that
+							// counts as "accompanied by its provenance file" is not for this
+							// property to decide
+							continue
+						}
+						lk, mode := lk, mode
+						x.emit(fmt.Sprintf("rename-link%s|%d|%s", tag, li, mode), func() *caseIn {
+							ci := x.base(pi, ri, "rename", fmt.Sprintf("archive %s through a symbolic link %s -> link-target/%s (%s linked)", lk.why, path.Join(lk.sub, lk.name), p.Base, mode))
+							ci.ArchName, ci.SubDir, ci.Link, ci.LinkTarget, ci.Region = lk.name, lk.sub, mode, p.Base, "symlink:"+mode
+							if mode == "archive" {
+								ci.OriginText = nil // no provenance is presented with the archive
+							}
+							return ci
+						})
+					}
+				}
+			}
+			if x.want("tamper-class") {
+				// one representative of every tamper class, so that every entry point
+				// (the positional families run a subset) meets every class
+				regs := provRegions(p.Prov)
+				firstOf := func(region string) int {
+					for i, r := range regs {
+						if r == region {
+							return i
+						}
+					}
+					return 0
+				}
+				type tc struct {
+					k   string
+					mod func(ci *caseIn)
+				}
+				flipProv := func(region string) tc {
+					return tc{"prov-bit-in-" + region, func(ci *caseIn) {
+						pos := firstOf(region) + 2
+						ci.Prov = append([]byte{}, p.Prov...)
+						ci.Prov[pos] ^= 1
+						ci.Desc = fmt.Sprintf("provenance byte %d bit 0 flipped (%s)", pos, region)
+					}}
+				}
+				flipArch := func(k string, pos int) tc {
+					return tc{"archive-bit-" + k, func(ci *caseIn) {
+						ci.Archive = append([]byte{}, p.Archive...)
+						ci.Archive[pos] ^= 1
+						ci.Desc = fmt.Sprintf("archive byte %d bit 0 flipped", pos)
+					}}
+				}
+				classes := []tc{
+					flipProv("begin-line"), flipProv("text-metadata"), flipProv("text-files"), flipProv("armor-body"), flipProv("sig-end-line"),
+					{"prov-empty", func(ci *caseIn) { ci.Prov = []byte{}; ci.Desc = "provenance truncated to 0 bytes" }},
+					{"prov-half", func(ci *caseIn) {
+						ci.Prov = append([]byte{}, p.Prov[:len(p.Prov)/2]...)
+						ci.Desc = "provenance truncated to its first half"
+					}},
+					flipArch("gzip-header", 4), flipArch("deflate-stream", len(p.Archive)/2), flipArch("gzip-trailer", len(p.Archive)-1),
+					{"archive-empty", func(ci *caseIn) { ci.Archive = []byte{}; ci.Desc = "archive truncated to 0 bytes" }},
+					{"archive-half", func(ci *caseIn) {
+						ci.Archive = append([]byte{}, p.Archive[:len(p.Archive)/2]...)
+						ci.Desc = "archive truncated to its first half"
+					}},
+				}
+				for _, cl := range classes {
+					cl := cl
+					x.emit("tamper-class"+tag+"|"+cl.k, func() *caseIn {
+						ci := x.base(pi, ri, "tamper-class", "")
+						cl.mod(ci)
+						ci.Region = cl.k
+						return ci
+					})
+				}
+			}
+			if x.want("pull-flags") && ri < 3 {
+				// helm pull without --verify: completes the flag product; executed, not judged
+				mods := []struct {
+					k   string
+					mod func(ci *caseIn)
+				}{
+					{"unmodified", func(ci *caseIn) {}},
+					{"archive-bit", func(ci *caseIn) {
+						ci.Archive = append([]byte{}, p.Archive...)
+						ci.Archive[len(p.Archive)/2] ^= 1
+					}},
+					{"prov-bit", func(ci *caseIn) {
+						ci.Prov = append([]byte{}, p.Prov...)
+						ci.Prov[len(p.Prov)/3] ^= 1
+					}},
+					{"no-prov", func(ci *caseIn) { ci.Prov, ci.NoProv, ci.OriginText = nil, true, nil }},
+				}
+				for _, m := range mods {
+					m := m
+					x.emit("pull-flags"+tag+"|"+m.k, func() *caseIn {
+						ci := x.base(pi, ri, "pull-flags", "helm pull without --verify on "+m.k+" (executed, nothing required)")
+						m.mod(ci)
+						ci.Region = m.k
+						ci.Entries = noVerifyPulls
 						return ci
 					})
 				}
